@@ -140,7 +140,7 @@ class NameSanitizer:
             # fallback: split on non-alphanumerics
             words = re.split(r"\W+", name)
         module = "_".join(word.lower() for word in words if word)
-        if module and not module.isidentifier() and not module[0].isdigit():
+        if module and not module.isidentifier():
             # The fallback split keeps every \w character, but some of them ("¾", "²") cannot appear in an identifier
             module = "".join(ch if ("a" + ch).isidentifier() else "_" for ch in module).strip("_")
         if not module:  # e.g. name was empty or consisted only of symbols such as "$" or "{ "
